@@ -91,7 +91,7 @@ def build(world, strata, prop, quick, rnd):
         for i, t in enumerate(lat_tris):
             for j, d in enumerate(dl_tris):
                 m += 1
-                if quick and m % (6 if prop == "C01" else 9):
+                if quick and m % {"C01": 4, "C02": 9, "C10": 3}[prop]:
                     continue
                 ell = world.get_ell(ellc[(i + j) % 6])
                 prj = ("utm", gc.utm) if (i + j) % 3 else world.rand_prj()
